@@ -51,6 +51,7 @@ Inductive tfield :=
 | FMac                                     (* TSIG: "mac_len mac"; base64.b64decode(tok.get_string()), length compared *)
 | FOther                                   (* TSIG: "other_len [other]"; the data token is read only when other_len > 0 *)
 | FGposStr                                 (* GPOS latitude / longitude / altitude: get_string, kept as the octets of the text *)
+| FAplRest                                 (* APL: the remaining tokens as [!]family:address/prefix items *)
 | FKeyRec.                                 (* the whole KEY record: flags (number or LegacyFlag mnemonics joined by "|"),
                                               protocol (number or mnemonic), algorithm, and the key unless the flags say NOKEY *)
 
@@ -64,6 +65,8 @@ Inductive tval :=
 | VWindows (ws : list (Z * list Z))
 | VNames (l : list name)
 | VGw (g a : Z) (gw : gwval)
+| VApl (items : list (Z * bool * list Z * Z))   (* family, negation, address, prefix; the address is 4 / 16 octets for
+                                                  families 1 / 2 and the hex text of the octets for any other family *)
 | VKey (flags proto alg : Z) (algtext : list Z) (key : list Z).
    (* algtext: the algorithm token between the token phase and the constructor ([] afterwards) *)
 
@@ -725,6 +728,62 @@ Definition nsap_from_text (t : list Z) : res (list Z) :=
     if negb (Nat.even (length h)) then Lib eSyntax
     else do e <- utf8_encode h; unhexlify e.
 
+(* dns/rdtypes/IN/APL.py *)
+Fixpoint split_once (sep : Z) (s : list Z) : option (list Z * list Z) :=     (* s.split(sep, 1) with two results *)
+  match s with
+  | [] => None
+  | c :: r => if c =? sep then Some ([], r)
+              else match split_once sep r with Some (a, b) => Some (c :: a, b) | None => None end
+  end.
+
+Definition aplitem := (Z * bool * list Z * Z)%type.
+
+(* APLItem.__init__ *)
+Definition apl_ctor (family : Z) (neg : bool) (addr : list Z) (prefix : Z) : res aplitem :=
+  if (family <? 0) || (family >? 65535) then Internal iValueError
+  else if family =? 1 then
+    do b <- ipv4_aton addr;
+    if (prefix <? 0) || (prefix >? 32) then Internal iValueError else Ok (family, neg, b, prefix)
+  else if family =? 2 then
+    do b <- ipv6_aton addr;
+    if (prefix <? 0) || (prefix >? 128) then Internal iValueError else Ok (family, neg, b, prefix)
+  else
+    do e <- utf8_encode addr;
+    if zlen e >? 127 then Internal iValueError
+    else do _ <- unhexlify e;
+         if (prefix <? 0) || (prefix >? 255) then Internal iValueError else Ok (family, neg, e, prefix).
+
+(* one token of APL.from_text (all its failures are IndexError / ValueError / SyntaxError) *)
+Definition apl_item_of_token (t : token) : res aplitem :=
+  do u <- unescape t;
+  match tvalue u with
+  | [] => Internal iIndexError
+  | c :: r =>
+      let neg := c =? 33 in
+      let item := if neg then r else c :: r in
+      match split_once 58 item with
+      | None => Internal iValueError
+      | Some (fam, rest) =>
+          match py_int 10 fam with
+          | None => Internal iValueError
+          | Some family =>
+              match split_once 47 rest with
+              | None => Internal iValueError
+              | Some (addr, pfx) =>
+                  match py_int 10 pfx with
+                  | None => Internal iValueError
+                  | Some prefix => apl_ctor family neg addr prefix
+                  end
+              end
+          end
+      end
+  end.
+
+Definition apl_item_text (it : aplitem) : res (list Z) :=
+  let '(family, neg, addr, prefix) := it in
+  do a <- (if family =? 1 then ipv4_ntoa addr else if family =? 2 then ipv6_ntoa addr else Ok addr);
+  Ok ((if neg then [33] else []) ++ dec family ++ [58] ++ a ++ [47] ++ dec prefix).
+
 (* ---------- printing ---------- *)
 (* Name.to_styled_text(style) with idna_codec None, omit_final_dot False *)
 Definition name_to_styled_text (st : style) (n : name) : res (list Z) :=
@@ -770,6 +829,7 @@ Definition print_field (st : style) (f : tfield) (v : tval) : res (list Z) :=
   | FMac, VBytes b => Ok (dec (zlen b) ++ [32] ++ b64encode b)
   | FOther, VBytes b => Ok (dec (zlen b) ++ (if is_nil b then [] else 32 :: b64encode b))
   | FGposStr, VBytes b => Ok b          (* self.latitude.decode(): the validated strings are ASCII *)
+  | FAplRest, VApl items => do ts <- map_res apl_item_text items; Ok (join_sp ts)
   | FKeyRec, VKey f p a _ k =>          (* dnskeybase: f"{self.flags} {self.protocol} {self.algorithm} {key}" *)
       Ok (dec f ++ [32] ++ dec p ++ [32] ++ dec a ++ [32] ++ styled_base64ify k (s_b64_chunk st) (s_b64_sep st))
   | _, _ => Internal eBadCase
@@ -903,6 +963,7 @@ Definition parse_field (c : pctx) (f : tfield) (st : tstate) : res (tval * tstat
       do e <- utf8_encode (fst hs); do b <- b64decode e; Ok (VBytes b, snd hs)
   | FGposStr => do ts <- get_string st 0; Ok (VBytes (fst ts), snd ts)
   | FKeyRec => key_from_text st
+  | FAplRest => do ts <- get_remaining st 0; do items <- map_res apl_item_of_token (fst ts); Ok (VApl items, snd ts)
   | FMac =>
       do ns <- get_uint max16 st 10;
       do ts <- get_string (snd ns) 0;
@@ -1059,6 +1120,7 @@ Definition schema_of (rdtype : Z) : option (list tfield) :=
   else if rdtype =? 20 then Some [cstr; FQOpt]                                     (* ISDN *)
   else if rdtype =? 27 then Some [FGposStr; FGposStr; FGposStr]                    (* GPOS *)
   else if rdtype =? 25 then Some [FKeyRec]                                         (* KEY *)
+  else if rdtype =? 42 then Some [FAplRest]                                        (* APL *)
   else if rdtype =? 250 then Some [FNameNoRel; FDec max48; u16; FMac; u16; FEnum KRcode; FOther]   (* TSIG *)
   else if rdtype =? 45 then Some [u8; FGw true; FB64RestE]                         (* IPSECKEY *)
   else if rdtype =? 260 then Some [u8; FDec 1; FGw false]                          (* AMTRELAY *)
@@ -1123,6 +1185,7 @@ Definition obs_of_val (v : tval) : obs :=
   | VWindows ws => L (map (fun w => L [I (fst w); B (snd w)]) ws)
   | VNames l => L (map obs_of_name l)
   | VKey f p a _ k => L [I f; I p; I a; B k]
+  | VApl items => L (map (fun it : aplitem => let '(f, n, a, p) := it in L [I f; I (if n then 1 else 0); B a; I p]) items)
   | VGw g a gw => L [I g; I a; match gw with GwNone => I 0 | GwText t => obs_of_text t | GwName n => obs_of_name n end]
   end.
 
@@ -1130,6 +1193,13 @@ Fixpoint windows_of_obs (l : list obs) : option (list bwindow) :=
   match l with
   | [] => Some []
   | L [I w; B b] :: r => match windows_of_obs r with Some t => Some ((w, b) :: t) | None => None end
+  | _ => None
+  end.
+
+Fixpoint apl_of_obs (l : list obs) : option (list aplitem) :=
+  match l with
+  | [] => Some []
+  | L [I f; I n; B a; I p] :: r => match apl_of_obs r with Some t => Some ((f, n =? 1, a, p) :: t) | None => None end
   | _ => None
   end.
 
@@ -1172,6 +1242,7 @@ Fixpoint vals_of_obs (fs : list tfield) (os : list obs) : option (list tval) :=
           | FMac, B b => Some (VBytes b :: r)
           | FGposStr, B b => Some (VBytes b :: r)
           | FKeyRec, L [I f; I p; I a; B k] => Some (VKey f p a [] k :: r)
+          | FAplRest, L l => match apl_of_obs l with Some its => Some (VApl its :: r) | None => None end
           | FOther, B b => Some (VBytes b :: r)
           | FGw _, L [I g; I a; I 0] => Some (VGw g a GwNone :: r)
           | FGw _, L [I g; I a; B t] => Some (VGw g a (GwText t) :: r)
